@@ -111,6 +111,7 @@ type Engine struct {
 	singleSt  map[*ssa.Alloc]int // number of stores to a local cell (including in closures)
 	accCache  map[*ssa.Function][]accessorCase
 	nnField   map[*types.Var]bool
+	errSums   map[*ssa.Function][]Fact
 	lockCache map[*ssa.Function]*lockInfo
 	sites     map[*ssa.Function][]ssa.CallInstruction
 	escaped   map[*ssa.Function]bool
@@ -762,6 +763,18 @@ func (e *Engine) binopFacts(v *ssa.BinOp, pol bool, fs factSet) {
 		switch op {
 		case token.EQL:
 			fs.add(Fact{Kind: "nil", K: e.keyOf(x)})
+			// err == nil where err is the error result of a module call: the callee's no-error facts hold
+			if ex, ok := x.(*ssa.Extract); ok {
+				if c, ok := ex.Tuple.(*ssa.Call); ok {
+					if callee := c.Call.StaticCallee(); callee != nil && hasErrorResult(callee) == ex.Index {
+						for _, f := range e.errSummary(callee) {
+							if g, ok := e.substFact(f, callee, c.Call.Args); ok {
+								fs.add(g)
+							}
+						}
+					}
+				}
+			}
 		case token.NEQ:
 			fs.add(Fact{Kind: "nonnil", K: e.keyOf(x)})
 		}
@@ -853,6 +866,58 @@ type predSummary struct {
 	whenTrue     []Fact // bool result true
 	whenFalse    []Fact // bool result false
 	whenNonEmpty []Fact // string result != ""
+}
+
+// errSummary: for a module function whose last result is an error, the facts about its parameters
+// that hold on every return whose error may be nil (GetSlice: err == nil => argument non-nil).
+func (e *Engine) errSummary(fn *ssa.Function) []Fact {
+	if e.errSums == nil {
+		e.errSums = map[*ssa.Function][]Fact{}
+	}
+	if fs, ok := e.errSums[fn]; ok {
+		return fs
+	}
+	e.errSums[fn] = nil
+	ei := hasErrorResult(fn)
+	if fn.Blocks == nil || ei < 0 || !strings.HasPrefix(fnPkgPath(fn), modPath) {
+		return nil
+	}
+	var acc factSet
+	for _, b := range fn.Blocks {
+		if len(b.Instrs) == 0 || b == fn.Recover {
+			continue
+		}
+		ret, ok := b.Instrs[len(b.Instrs)-1].(*ssa.Return)
+		if !ok || ei >= len(ret.Results) {
+			continue
+		}
+		ev := ret.Results[ei]
+		if !isNilConst(ev) {
+			if _, isCall := ev.(*ssa.Call); isCall || e.nonNilFact(ev, b) {
+				continue
+			}
+			if _, isMI := ev.(*ssa.MakeInterface); isMI {
+				continue
+			}
+			e.errSums[fn] = nil
+			return nil
+		}
+		hold := e.holding(b)
+		if acc == nil {
+			acc = factSet{}
+			acc.add(hold.list()...)
+		} else {
+			acc = intersect(acc, hold)
+		}
+	}
+	var out []Fact
+	for _, f := range acc.list() {
+		if e.paramRooted(f, fn) {
+			out = append(out, f)
+		}
+	}
+	e.errSums[fn] = out
+	return out
 }
 
 func (e *Engine) summary(fn *ssa.Function) *predSummary {
